@@ -15,7 +15,7 @@ CLAIMED = {
     "C11": ("Lean theorems on the I/O trace component of the model (one seek+read per touched chunk, confined to the chunk and the file; open pass = prefix of ceil(n/rpc) sequential reads); event-sequence correspondence against a tracing file object; instrumented-filesystem oracle",
             "xarray may widen selections before the backend is called; bound checked against the selection's line span", "7 C11"),
     "C05": ("Lean theorems attitude / data_quality / facility_1_4 / volume_directory / trailer / leader / static_records on the record layouts regenerated from /repo (incl. their this-expressions): a successful parse consumes exactly the declared bytes for every count and length; layout correspondence; all-N oracle with field-by-field comparison after each variable record",
-            "the interpreter's meaning of construct classes is tied by differential testing; read_sar_trailer's own slicing is only tested", "7 C05"),
+            "the interpreter's meaning of construct classes is tied by differential testing; trailer_images / trailer_samples: the trailer reader decodes image i from the bytes between the running sums of the declared lengths (model tied by the trailer correspondence); numpy's frombuffer/reshape are contracts", "7 C05"),
     "C07": ("Lean theorems read_valid / cache_is_used / no_cache_consulted over a state machine on the TEXT of the two index files, parametric in json.loads (two contracts), using the codec round trip; correspondence of codec, json and the cache-first open on real files; oracle over producer x location x filesystem x rpc(write) x rpc(read)",
             "EnvOK assumptions (rpc-stability and codec domain of the uncached groups, json contracts) are hypotheses; non-local filesystems are a recorded known finding", "7 C07"),
     "C08": ("Lean theorem decode_encode: decodeDoc r (encodeDoc g) = g.withRpc r for every group in a decidable codec domain (structural induction; incl. calendar/text round trip of datetime references), tuple_tag, document_is_json; text-exact correspondence with caching.encode/decode",
@@ -26,11 +26,11 @@ CLAIMED = {
             "caller-dict aliasing is only observed by the harness", "7 C10"),
     "C03": ("Lean theorems line_metadata_11/15 (for ANY number n>=1 of line records, every file content: the image group is the frozen documented group, induction over n), header_attrs (present exactly when non-blank, all 32 combinations), field_positions (golden offsets/widths/scale factors/units), line_times; layout + transformer correspondence; field-by-field end-to-end oracle",
             "numpy dtype inference / datetime64 override and IEEE scaling are third-party (scaling checked exactly by the harness)", "7 C03"),
-    "C04": ("Lean theorems field_positions (every live field of the fixed-size leader records at its golden offset/width/conversion), dataset_summary / radiometric_data / transformations (for EVERY file content the group is the frozen documented tree evaluated on the parsed record: parse -> shape -> naturality -> kernel computation on syntax), framing, numeric_text; leader correspondence; oracle over all ~900 fields at once",
-            "partial: attitude, data-quality, platform-position and map-projection pipelines only by layout theorems + correspondence + oracle; float()/IEEE are contracts", "7 C04"),
+    "C04": ("Lean theorem metadata: for EVERY leader file that parses, transform_metadata (record selection, the seven record pipelines, renames, attitude time fix-up) yields the frozen documented /metadata tree evaluated on the parsed record (any number of map-projection records, any attitude/facility lengths, any number n>=1 of attitude points and 1..16 channels); per-record theorems dataset_summary / radiometric_data / transformations / platform_position / map_projection (per designator class) / attitude (all n) / data_quality_summary; field_positions (golden offsets/widths/conversions of the fixed-size records), framing, numeric_text; layouts, pipeline configuration and step order regenerated from source; transformer correspondence (11 pipelines incl. whole leaders); field-by-field end-to-end oracle",
+            "float()/IEEE scaling, strptime/timedelta of the first-point time and numpy timedelta arithmetic are contracts (evaluated exactly by the harness)", "7 C04"),
     "C12": ("Lean theorems documented_trees_well_typed / image_group_well_typed (any n) / typing_is_shape_only, declared_shape (from pixel_fidelity), real_dtypes (re-read from source); oracle over dtype/shape/nbytes/repr/attribute types/selection shapes",
             "numpy's dtype inference of python lists is third-party", "7 C12"),
-    "C13": ("Lean theorems imagery_children (no image dropped or swapped when names are distinct), name_collision, group_names_injective, roles_independent_of_line_order (permutation invariance), root_children; oracle over 1-8 images x polarisation x scan x summary orders",
+    "C13": ("Lean theorems imagery_children (no image dropped or swapped when names are distinct), name_collision, group_names_injective, roles_independent_of_line_order (permutation invariance), metadata_children (for every leader file: /metadata has exactly the record groups present in the leader, map_projection iff the file holds such a record), root_children; oracle over 1-8 images x polarisation x scan x summary line order, uncached and through a freshly created cache: node paths and order, per-group pixel identity with the right file, attributes",
             "DataTree.from_dict / set_coords are xarray's", "7 C13"),
     "C14": ("Lean theorems line_sound / line_complete (exact line grammar incl. lazy matching, values with = and quotes), errors_exact, crlf, perm_invariant on the regex regenerated from CPython's own AST; summary correspondence; whole-product oracle with permuted/CRLF/corrupted summaries",
             "the backtracking matcher model is tied to CPython's re by correspondence", "7 C14"),
